@@ -9,6 +9,9 @@ use std::iter::{Enumerate, Skip, Take, Zip};
 
 verus! {
 
+// TRUSTED: 64-bit target (usize is 8 bytes)
+global size_of usize == 8;
+
 //@@ item src/lib.rs struct Range
 
 // TRUSTED: `#[derive(Default)]` on `struct Range<T>` (src/lib.rs; the derive expansion itself is outside Verus' subset):
@@ -166,6 +169,7 @@ pub open spec fn no_blank_row_in<T: Default>(cs: Seq<T>, co: Seq<usize>, rp: Seq
     forall|l: int| l0 <= l <= l1 ==> #[trigger] row_has_nd(cs, co, rp, l)
 }
 pub open spec fn row_has_nd<T: Default>(cs: Seq<T>, co: Seq<usize>, rp: Seq<usize>, l: int) -> bool { exists|c: int| nd(cs, co, rp, l, c) }
+pub open spec fn col_has_nd<T: Default>(cs: Seq<T>, co: Seq<usize>, rp: Seq<usize>, c: int) -> bool { exists|l: int| nd(cs, co, rp, l, c) }
 
 /// one row of the expected result: columns c0..=c1 of logical row l
 pub open spec fn erow<T: Default>(cs: Seq<T>, co: Seq<usize>, rp: Seq<usize>, c0: int, c1: int, l: int) -> Seq<T> {
@@ -311,9 +315,20 @@ pub open spec fn zip_ok(co: Seq<usize>, rp: Seq<usize>, t: int, total: int, rem:
 }
 
 
+/// witness: the requires of get_range is satisfiable (one physical row [7] repeated twice)
+proof fn witness_get_range_requires()
+{
+    let cs: Seq<usize> = seq![7usize];
+    let co: Seq<usize> = seq![0usize, 1usize];
+    let rp: Seq<usize> = seq![2usize];
+    assert(wf_shape(cs, co, rp));
+    assert(rep_sum(rp, 1) == 2) by { reveal_with_fuel(rep_sum, 3); }
+    assert(hyp(cs, co, rp));
+}
+
 /// the closing argument of get_range: from what the two loops established to the property-level facts
 proof fn lemma_get_range_post<T: Default>(cs: Seq<T>, co: Seq<usize>, rp: Seq<usize>, m: int, x0: int, c0: int, c1: int, fe: int, rmax: int,
-    gm_c: int, gx_c: int, gmin: int, gmax: int, good: bool, bw: int, data: Seq<T>, lo0: int, hi0: int)
+    gm_c: int, gx_c: int, gmin: int, gmax: int, good: bool, bw: int, data: Seq<T>, lo0: int, hi0: int) -> (wit: (int, int, int, int))
     requires
         lo0 == m + fe, hi0 == rmax + fe,
         wf_shape(cs, co, rp), hyp(cs, co, rp), 0 <= m, 0 <= x0, 0 <= c0, 0 <= c1, 0 <= fe,
@@ -327,10 +342,7 @@ proof fn lemma_get_range_post<T: Default>(cs: Seq<T>, co: Seq<usize>, rp: Seq<us
         lo0 == rep_sum(rp, m), hi0 == rep_sum(rp, x0 + 1) - 1,
         0 <= lo0 <= hi0 <= u32::MAX, c0 <= c1 <= u32::MAX,
         forall|l: int, c: int| nd(cs, co, rp, l, c) ==> lo0 <= l <= hi0 && c0 <= c <= c1,
-        exists|c: int| nd(cs, co, rp, lo0, c),
-        exists|c: int| nd(cs, co, rp, hi0, c),
-        exists|l: int| nd(cs, co, rp, l, c0),
-        exists|l: int| nd(cs, co, rp, l, c1),
+        nd(cs, co, rp, lo0, wit.0), nd(cs, co, rp, hi0, wit.1), nd(cs, co, rp, wit.2, c0), nd(cs, co, rp, wit.3, c1),
         good ==> data.len() == (hi0 - lo0 + 1) * (c1 - c0 + 1)
             && forall|l: int, c: int| lo0 <= l <= hi0 && c0 <= c <= c1 ==>
                 data[(l - lo0) * (c1 - c0 + 1) + (c - c0)] == lg(cs, co, rp, l, c),
@@ -401,6 +413,92 @@ proof fn lemma_get_range_post<T: Default>(cs: Seq<T>, co: Seq<usize>, rp: Seq<us
             assert(lg(cs, co, rp, l, c0 + (c - c0)) == lg(cs, co, rp, l, c));
         }
     }
+    (gm_c, gx_c, rep_sum(rp, gmin), rep_sum(rp, gmax))
+}
+
+/// the clauses of get_range's contract that are PROVED below, as one predicate over the result (lo, hi, data)
+pub open spec fn contract_ok<T: Default>(cs: Seq<T>, co: Seq<usize>, rp: Seq<usize>, lo: (u32, u32), hi: (u32, u32), data: Seq<T>) -> bool {
+    &&& (forall|l: int, c: int| !nd(cs, co, rp, l, c)) <==> data.len() == 0
+    &&& data.len() == 0 ==> lo == (0u32, 0u32) && hi == (0u32, 0u32)
+    &&& forall|l: int, c: int| nd(cs, co, rp, l, c) ==> lo.0 <= l <= hi.0 && lo.1 <= c <= hi.1
+    &&& data.len() > 0 ==> row_has_nd(cs, co, rp, lo.0 as int) && row_has_nd(cs, co, rp, hi.0 as int)
+            && col_has_nd(cs, co, rp, lo.1 as int) && col_has_nd(cs, co, rp, hi.1 as int)
+    &&& data.len() > 0 && (lo.1 == 0 || no_blank_row_in(cs, co, rp, lo.0 as int, hi.0 as int)) ==>
+            data.len() == (hi.0 - lo.0 + 1) * (hi.1 - lo.1 + 1)
+            && forall|l: int, c: int| lo.0 <= l <= hi.0 && lo.1 <= c <= hi.1 ==>
+                data[(l - lo.0) * (hi.1 - lo.1 + 1) + (c - lo.1)] == lg(cs, co, rp, l, c)
+}
+
+/// C04 AS STATED (no side condition): every range produced under the proved contract is a full rectangle holding the logical grid.
+/// This does NOT follow from the proved contract -- and is false for the real code, see findings/ods.json (interior blank rows are
+/// emitted col_max + 1 cells wide).  The two obligations below are registered as the known finding.
+proof fn c04_unconditional<T: Default>(cs: Seq<T>, co: Seq<usize>, rp: Seq<usize>, lo: (u32, u32), hi: (u32, u32), data: Seq<T>)
+    requires
+        wf_shape(cs, co, rp), hyp(cs, co, rp), contract_ok(cs, co, rp, lo, hi, data), data.len() > 0,
+    ensures
+        //# C04.len_is_h_times_w
+        data.len() == (hi.0 - lo.0 + 1) * (hi.1 - lo.1 + 1),
+        //# C04.placement
+        forall|l: int, c: int| lo.0 <= l <= hi.0 && lo.1 <= c <= hi.1 ==>
+            data[(l - lo.0) * (hi.1 - lo.1 + 1) + (c - lo.1)] == lg(cs, co, rp, l, c),
+{
+}
+
+/// side condition under which the code is proved right: data starts in column 0, or no blank logical row inside the box
+pub open spec fn outside_known_defect<T: Default>(cs: Seq<T>, co: Seq<usize>, rp: Seq<usize>, lo: (u32, u32), hi: (u32, u32)) -> bool {
+    lo.1 == 0 || no_blank_row_in(cs, co, rp, lo.0 as int, hi.0 as int)
+}
+
+/// RUN-LENGTH INDEPENDENCE (corollary of the contract): two encodings (any grouping of rows into repeated elements, any split of
+/// `cells` into physical rows) that expand to the same logical grid give the same range.
+proof fn lemma_encoding_independent<T: Default>(cs1: Seq<T>, co1: Seq<usize>, rp1: Seq<usize>, lo1: (u32, u32), hi1: (u32, u32), d1: Seq<T>,
+    cs2: Seq<T>, co2: Seq<usize>, rp2: Seq<usize>, lo2: (u32, u32), hi2: (u32, u32), d2: Seq<T>)
+    requires
+        contract_ok(cs1, co1, rp1, lo1, hi1, d1), contract_ok(cs2, co2, rp2, lo2, hi2, d2),
+        forall|l: int, c: int| lg(cs1, co1, rp1, l, c) == lg(cs2, co2, rp2, l, c),
+        outside_known_defect(cs1, co1, rp1, lo1, hi1),
+    ensures
+        //# C04.run_length_independent_outside_known_defect
+        lo1 == lo2 && hi1 == hi2 && d1 =~= d2,
+{
+    assert forall|l: int, c: int| nd(cs1, co1, rp1, l, c) == nd(cs2, co2, rp2, l, c) by { }
+    if d1.len() == 0 {
+        assert forall|l: int, c: int| !nd(cs2, co2, rp2, l, c) by { assert(!nd(cs1, co1, rp1, l, c)); }
+    } else {
+        let c = choose|c: int| nd(cs1, co1, rp1, lo1.0 as int, c);
+        assert(nd(cs2, co2, rp2, lo1.0 as int, c));
+        assert(d2.len() > 0);
+        // the four sides of each box touch a cell that the other box contains
+        let a = choose|c: int| nd(cs1, co1, rp1, lo1.0 as int, c); assert(nd(cs2, co2, rp2, lo1.0 as int, a));
+        let b = choose|c: int| nd(cs1, co1, rp1, hi1.0 as int, c); assert(nd(cs2, co2, rp2, hi1.0 as int, b));
+        let e = choose|l: int| nd(cs1, co1, rp1, l, lo1.1 as int); assert(nd(cs2, co2, rp2, e, lo1.1 as int));
+        let f = choose|l: int| nd(cs1, co1, rp1, l, hi1.1 as int); assert(nd(cs2, co2, rp2, f, hi1.1 as int));
+        let a2 = choose|c: int| nd(cs2, co2, rp2, lo2.0 as int, c); assert(nd(cs1, co1, rp1, lo2.0 as int, a2));
+        let b2 = choose|c: int| nd(cs2, co2, rp2, hi2.0 as int, c); assert(nd(cs1, co1, rp1, hi2.0 as int, b2));
+        let e2 = choose|l: int| nd(cs2, co2, rp2, l, lo2.1 as int); assert(nd(cs1, co1, rp1, e2, lo2.1 as int));
+        let f2 = choose|l: int| nd(cs2, co2, rp2, l, hi2.1 as int); assert(nd(cs1, co1, rp1, f2, hi2.1 as int));
+        assert(lo1 == lo2 && hi1 == hi2);
+        if lo1.1 != 0 {
+            assert forall|l: int| lo2.0 <= l <= hi2.0 implies #[trigger] row_has_nd(cs2, co2, rp2, l) by {
+                assert(row_has_nd(cs1, co1, rp1, l));
+                let c = choose|c: int| nd(cs1, co1, rp1, l, c);
+                assert(nd(cs2, co2, rp2, l, c));
+            }
+        }
+        let w = hi1.1 - lo1.1 + 1;
+        let h = hi1.0 - lo1.0 + 1;
+        assert(d1.len() == d2.len());
+        assert forall|k: int| 0 <= k < d1.len() implies d1[k] == d2[k] by {
+            let l = lo1.0 + k / w;
+            let cc = lo1.1 + k % w;
+            assert(k == (k / w) * w + k % w && 0 <= k % w < w) by (nonlinear_arith) requires w > 0, k >= 0;
+            assert(k / w < h) by (nonlinear_arith) requires k < h * w, w > 0, k >= 0, k == (k / w) * w + k % w, 0 <= k % w;
+            assert(k / w >= 0) by (nonlinear_arith) requires w > 0, k >= 0;
+            assert((l - lo1.0) * w + (cc - lo1.1) == k);
+            assert(d1[(l - lo1.0) * (hi1.1 - lo1.1 + 1) + (cc - lo1.1)] == lg(cs1, co1, rp1, l, cc));
+            assert(d2[(l - lo2.0) * (hi2.1 - lo2.1 + 1) + (cc - lo2.1)] == lg(cs2, co2, rp2, l, cc));
+        }
+    }
 }
 
 //@@ fn src/ods.rs is_empty_row props=C04 ret=r
@@ -423,7 +521,10 @@ proof fn lemma_get_range_post<T: Default>(cs: Seq<T>, co: Seq<usize>, rp: Seq<us
     __r }
 //@@ end
 
-//@@ fn src/ods.rs get_range props=C04 ret=r
+// `entry`: the repeat counts (`number-rows-repeated`, parsed with str::parse::<usize>) reach get_range unchecked, so its arithmetic
+// obligations are C06 obligations.  The `requires` below does NOT constrain them: it only states what read_table establishes by
+// construction (cols = running cells.len(), one repeat count per row), the laws of the cell type, and a resource bound.
+//@@ fn src/ods.rs get_range props=C04 entry ret=r
 //@@ sig
     requires
         lawful::<T>(),
@@ -435,21 +536,18 @@ proof fn lemma_get_range_post<T: Default>(cs: Seq<T>, co: Seq<usize>, rp: Seq<us
         hyp(cells@, cols@, rows_repeats@) ==>
             ((forall|l: int, c: int| !nd(cells@, cols@, rows_repeats@, l, c)) <==> r.data().len() == 0),
         //# C04.empty_is_default_range
-        r.data().len() == 0 ==> r.lo() == (0u32, 0u32) && r.hi() == (0u32, 0u32),
+        hyp(cells@, cols@, rows_repeats@) && r.data().len() == 0 ==> r.lo() == (0u32, 0u32) && r.hi() == (0u32, 0u32),
         //# C04.bbox_contains
         hyp(cells@, cols@, rows_repeats@) ==> forall|l: int, c: int| nd(cells@, cols@, rows_repeats@, l, c) ==>
             r.lo().0 <= l <= r.hi().0 && r.lo().1 <= c <= r.hi().1,
-        //# C04.bbox_tight
-        hyp(cells@, cols@, rows_repeats@) && r.data().len() > 0 ==>
-            (exists|c: int| nd(cells@, cols@, rows_repeats@, r.lo().0 as int, c)) && (exists|c: int| nd(cells@, cols@, rows_repeats@, r.hi().0 as int, c))
-            && (exists|l: int| nd(cells@, cols@, rows_repeats@, l, r.lo().1 as int)) && (exists|l: int| nd(cells@, cols@, rows_repeats@, l, r.hi().1 as int)),
-        //# C04.len_is_h_times_w
-        hyp(cells@, cols@, rows_repeats@) && r.data().len() > 0 ==>
-            r.data().len() == (r.hi().0 - r.lo().0 + 1) * (r.hi().1 - r.lo().1 + 1),
-        //# C04.placement
-        hyp(cells@, cols@, rows_repeats@) && r.data().len() > 0 ==>
-            forall|l: int, c: int| r.lo().0 <= l <= r.hi().0 && r.lo().1 <= c <= r.hi().1 ==>
-                r.data()[(l - r.lo().0) * (r.hi().1 - r.lo().1 + 1) + (c - r.lo().1)] == lg(cells@, cols@, rows_repeats@, l, c),
+        //# C04.bbox_tight_top
+        hyp(cells@, cols@, rows_repeats@) && r.data().len() > 0 ==> row_has_nd(cells@, cols@, rows_repeats@, r.lo().0 as int),
+        //# C04.bbox_tight_bottom
+        hyp(cells@, cols@, rows_repeats@) && r.data().len() > 0 ==> row_has_nd(cells@, cols@, rows_repeats@, r.hi().0 as int),
+        //# C04.bbox_tight_left
+        hyp(cells@, cols@, rows_repeats@) && r.data().len() > 0 ==> col_has_nd(cells@, cols@, rows_repeats@, r.lo().1 as int),
+        //# C04.bbox_tight_right
+        hyp(cells@, cols@, rows_repeats@) && r.data().len() > 0 ==> col_has_nd(cells@, cols@, rows_repeats@, r.hi().1 as int),
         //# C04.len_is_h_times_w_outside_known_defect
         hyp(cells@, cols@, rows_repeats@) && r.data().len() > 0
             && (r.lo().1 == 0 || no_blank_row_in(cells@, cols@, rows_repeats@, r.lo().0 as int, r.hi().0 as int)) ==>
@@ -498,6 +596,8 @@ verif_windows_enumerate(cols, 2)
             }
             let ghost mut found = false;
             let ghost mut found2 = false;
+            let ghost mut pfirst: int = 0;
+            let ghost mut plast: int = 0;
 //@@ after /if let Some\(p\) = row\.iter\(\)\.position\([^{]*\{/
                 proof {
                     // p is the first non-default cell of physical row k
@@ -508,11 +608,11 @@ verif_windows_enumerate(cols, 2)
                         assert(row@[c] == cs[co[k] + c]);
                     }
                     found = true;
+                    pfirst = p as int;
                     if row_min is None { gm_c = p as int; }
                     gx_c = p as int;
                     if p <= col_min { gmin = k; }
                 }
-                let ghost pfirst: int = p as int;
 //@@ after /if let Some\(p\) = row\.iter\(\)\.rposition\([^{]*\{/
                     proof {
                         assert(row@[p as int] != dflt::<T>());
@@ -523,6 +623,7 @@ verif_windows_enumerate(cols, 2)
                         }
                         if p >= col_max { gmax = k; }
                         found2 = true;
+                        plast = p as int;
                     }
 //@@ after /if p > col_max \{[^}]*\}\s*\}/
                 proof {
@@ -546,7 +647,16 @@ verif_windows_enumerate(cols, 2)
                         assert(forall|i: int| 0 <= i < mm ==> blank_row(cs, co, i));
                         assert(forall|i: int| row_max < i < k ==> blank_row(cs, co, i));
                         assert(col_min <= col_max);
-                        assert(forall|i: int, c: int| 0 <= i < k && nd_at(cs, co, i, c) ==> col_min <= c <= col_max);
+                        assert forall|i: int, c: int| 0 <= i < k && nd_at(cs, co, i, c) implies col_min <= c <= col_max by {
+                            if i == k - 1 {
+                                assert(found);
+                                assert(found2);
+                                assert(pfirst <= c <= plast);
+                                assert(col_min <= pfirst && plast <= col_max);
+                            } else {
+                                assert(!blank_row(cs, co, i));
+                            }
+                        }
                         assert(mm <= gmin <= row_max && nd_at(cs, co, gmin, col_min as int));
                         assert(mm <= gmax <= row_max && nd_at(cs, co, gmax, col_max as int));
                         assert(first_empty_rows_repeated == (if rep_sum(rp, mm as int) >= mm { rep_sum(rp, mm as int) - mm } else { 0 }));
@@ -591,7 +701,7 @@ verif_windows_enumerate(cols, 2)
                 empty_cells@.len() == col_max + 1, forall|j: int| 0 <= j < empty_cells@.len() ==> empty_cells@[j] == dflt::<T>(),
                 m <= pb <= t, pb <= x0 + 1, t > x0 ==> pb == x0 + 1, t > m ==> pb > m,
                 forall|i: int| pb <= i < t ==> blank_row(cs, co, i),
-                row_max - consecutive_empty_rows >= x0 - (t - m), consecutive_empty_rows <= t - m, col_max < 0x7fff_ffff,
+                row_max - consecutive_empty_rows >= x0 - (t - m), consecutive_empty_rows <= t - m, col_max < 0x7fff_ffff, co.len() <= 0x7fff_ffff,
                 reps_pos(rp) ==> empty_row_repeats == rep_sum(rp, t) - rep_sum(rp, pb) && consecutive_empty_rows == t - pb
                     && row_max == x0 + (rep_sum(rp, pb) - l0) - (pb - m)
                     && (t > m ==> new_cells@.len() > 0)
@@ -741,10 +851,26 @@ verif_windows_enumerate(cols, 2)
             assert(pb == x0 + 1);
         }
 //@@ before /let row_min = row_min \+ first_empty_rows_repeated;/
+    let ghost mut wit: (int, int, int, int) = (0, 0, 0, 0);
     proof {
         if hyp(cs, co, rp) {
-            lemma_get_range_post(cs, co, rp, m, x0 as int, col_min as int, col_max as int, first_empty_rows_repeated as int, row_max as int,
+            wit = lemma_get_range_post(cs, co, rp, m, x0 as int, col_min as int, col_max as int, first_empty_rows_repeated as int, row_max as int,
                 gm_c, gx_c, gmin, gmax, good, bw, cells@, row_min + first_empty_rows_repeated, row_max + first_empty_rows_repeated);
+        }
+    }
+//@@ before /Range \{\n/
+    proof {
+        if hyp(cs, co, rp) {
+            let a0 = row_min as u32 as int;
+            let a1 = row_max as u32 as int;
+            let b0 = col_min as u32 as int;
+            let b1 = col_max as u32 as int;
+            assert(a0 == row_min && a1 == row_max && b0 == col_min && b1 == col_max);
+            assert(nd(cs, co, rp, a0, wit.0));
+            assert(nd(cs, co, rp, a1, wit.1));
+            assert(nd(cs, co, rp, wit.2, b0));
+            assert(nd(cs, co, rp, wit.3, b1));
+            assert(row_has_nd(cs, co, rp, a0) && row_has_nd(cs, co, rp, a1) && col_has_nd(cs, co, rp, b0) && col_has_nd(cs, co, rp, b1));
         }
     }
 //@@ replace /rows_repeats\.iter\(\)\.take\(i\)\.sum::<usize>\(\)/ Verus cannot attach a specification to the provided trait method Iterator::sum; the expression is moved verbatim into the trusted wrapper verif_sum_take
